@@ -49,7 +49,7 @@ class Module:
             self.tree = ast.parse(source, filename=relpath)
         except SyntaxError as exc:  # pragma: no cover
             raise AnalysisError(f'parse error in {relpath}: {exc}')
-        self.tree = fold_dynamic_names(unroll_literal_loops(inline_string_constants(self.tree)))
+        self.tree = split_conditional_callees(fold_dynamic_names(unroll_literal_loops(inline_string_constants(self.tree))))
         for node in ast.walk(self.tree):
             for child in ast.iter_child_nodes(node):
                 child._parent = node
@@ -90,6 +90,56 @@ def _constant_tables(tree):
             for k in [k for k in tables if k.endswith('.' + n.attr)]:
                 del tables[k]
     return tables
+
+
+def split_conditional_callees(tree):
+    """Normalisation: `f = A if c else B` (c a plain name, A and B names or attribute references) followed in the same block by a
+    statement `f(args)` / `x = f(args)` / `return f(args)` becomes `if c: A(args) else: B(args)` (the binding of f is kept).
+    Behaviour-preserving when neither c nor f is re-bound in between; restores the branch structure for path-sensitive rules."""
+    import copy
+
+    def rewrite_block(body):
+        out = []
+        pending = {}  # f -> (test name, A, B)
+        for st in body:
+            for field in ('body', 'orelse', 'finalbody'):
+                sub = getattr(st, field, None)
+                if isinstance(sub, list) and sub and isinstance(sub[0], ast.stmt):
+                    setattr(st, field, rewrite_block(sub))
+            if isinstance(st, ast.Try):
+                for h in st.handlers:
+                    h.body = rewrite_block(h.body)
+            stored = {x.id for x in ast.walk(st) if isinstance(x, ast.Name) and isinstance(x.ctx, ast.Store)}
+            call = None
+            if isinstance(st, ast.Expr) and isinstance(st.value, ast.Call):
+                call = st.value
+            elif isinstance(st, (ast.Assign, ast.Return)) and isinstance(st.value, ast.Call):
+                call = st.value
+            if call is not None and isinstance(call.func, ast.Name) and call.func.id in pending:
+                test, a, b = pending[call.func.id]
+
+                def variant(target):
+                    s2 = copy.deepcopy(st)
+                    c2 = s2.value
+                    c2.func = copy.deepcopy(target)
+                    return s2
+                new = ast.copy_location(ast.If(test=ast.Name(id=test, ctx=ast.Load()), body=[variant(a)], orelse=[variant(b)]), st)
+                out.append(new)
+                continue
+            for k in list(pending):
+                if k in stored or pending[k][0] in stored:
+                    del pending[k]
+            if isinstance(st, ast.Assign) and len(st.targets) == 1 and isinstance(st.targets[0], ast.Name) and isinstance(st.value, ast.IfExp) \
+                    and isinstance(st.value.test, ast.Name) and all(isinstance(x, (ast.Name, ast.Attribute)) for x in (st.value.body, st.value.orelse)):
+                pending[st.targets[0].id] = (st.value.test.id, st.value.body, st.value.orelse)
+            out.append(st)
+        return out
+
+    for node in ast.walk(tree):
+        if isinstance(node, (ast.FunctionDef, ast.AsyncFunctionDef)):
+            node.body = rewrite_block(node.body)
+    ast.fix_missing_locations(tree)
+    return tree
 
 
 def inline_string_constants(tree):
